@@ -371,6 +371,16 @@ def _r5(ctx):
         guarded(ctx, 'R5', fn, {'constants': repr(vals)}, lambda vals=vals: [Const(v) for v in vals],
                 lambda o, want=want: is_bool(o, want), 'the logical %s' % str(want).upper())
         n += 1
+    # the same items inside an array or range: a blank cell of the range is an item like any other (false)
+    for fn, vals, want in consts:
+        if fn == 'NOT' or len(vals) < 2:
+            continue
+        guarded(ctx, 'R5', fn, {'constants in one array': repr(vals)}, lambda vals=vals: [ListV([Const(v) for v in vals])],
+                lambda o, want=want: is_bool(o, want), 'the logical %s (the items of an array count exactly as separate arguments do)' % str(want).upper())
+        guarded(ctx, 'R5', fn, {'first item, then the rest as an array': repr(vals)},
+                lambda vals=vals: [Const(vals[0]), ListV([Const(v) for v in vals[1:]])],
+                lambda o, want=want: is_bool(o, want), 'the logical %s (the items of an array count exactly as separate arguments do)' % str(want).upper())
+        n += 2
     # NOT on a symbolic logical
     def jn(o):
         env = _assignment(o)
@@ -466,6 +476,24 @@ def _r6(ctx):
             return o.kind == 'return' and isinstance(o.value, Const) and o.value.value == 'r2'
         guarded(ctx, 'R6', 'SWITCH', {'target': repr(tv), 'cases': [repr(cv + 1), repr(cv)]}, mk, judge,
                 'the result paired with the case of equal value (%r equals %r whatever the kind of number)' % (tv, cv), key='pairing')
+    # an error value among the cases is not equal to the target: its result is never selected (the error itself may be passed on)
+    def mk_err_case():
+        return [Sym('int', 't'), Sym('err', 'E'), Const('bad'), Sym('int', 'c1'), Const('r1')]
+
+    def judge_err_case(o):
+        if o.kind == 'return' and isinstance(o.value, Const) and o.value.value == 'bad':
+            return False
+        if isinstance(o.value, Sym) and o.value.name == 'E':
+            return True         # the error passed on
+        w = world(o)
+        if 'c1' not in w:
+            return False
+        if w['c1']:
+            return o.kind == 'return' and isinstance(o.value, Const) and o.value.value == 'r1'
+        return o.kind == 'return' and isinstance(o.value, Err) and o.value.name == NA
+    guarded(ctx, 'R6', 'SWITCH', {'vector': 'an error value as the first case'}, mk_err_case, judge_err_case,
+            'the result paired with the first case *equal* to the target (an error value is not equal to a number), or that error - never the '
+            'result paired with the error case', key='pairing')
     # falsy default survives
     for dv in (0, False, ''):
         def mk(dv=dv):
